@@ -9,6 +9,7 @@ package mcp
 import (
 	"context"
 	"encoding/json"
+	"errors"
 	"fmt"
 	"net/http"
 	"sync"
@@ -361,6 +362,7 @@ func (h *httpServerHandler) handlePostRequest(ctx context.Context, w http.Respon
 		}
 		if err := sseResponder.respond(ctx, w, r, jsonrpcResponse, session); err != nil {
 			h.logger.Errorf("Failed to send SSE success response: %v", err)
+			h.respondEncodingFailure(ctx, sseResponder, w, r, req.ID, err, session)
 		}
 		return
 	}
@@ -395,6 +397,19 @@ func (h *httpServerHandler) handlePostRequest(ctx context.Context, w http.Respon
 	}
 	if err := responder.respond(respCtx, w, r, jsonrpcResponse, session); err != nil {
 		h.logger.Errorf("Failed to send success response: %v", err)
+		h.respondEncodingFailure(respCtx, responder, w, r, req.ID, err, session)
+	}
+}
+
+// respondEncodingFailure answers a request whose result could not be encoded (nothing has been written
+// yet in that case) with an internal error, so that the caller is not left with an empty answer.
+func (h *httpServerHandler) respondEncodingFailure(ctx context.Context, rsp responder, w http.ResponseWriter, r *http.Request, id interface{}, cause error, session Session) {
+	if !errors.Is(cause, ErrResponseSerialization) {
+		return
+	}
+	errorResp := newJSONRPCErrorResponse(id, ErrCodeInternal, "failed to encode result: "+cause.Error(), nil)
+	if err := rsp.respond(ctx, w, r, errorResp, session); err != nil {
+		h.logger.Errorf("Failed to send encoding error response: %v", err)
 	}
 }
 
